@@ -42,6 +42,14 @@ var c04e3Variants = []c04e3Variant{
 	{"read-vs-cancelread-vs-fin", false, []string{"read600", "cancelread", "fin"}},
 	{"cancelread-vs-update-vs-reset", true, []string{"cancelread", "update", "reset"}},
 	{"2x-cancelread-vs-reset", true, []string{"cancelread", "cancelread", "reset"}},
+	// blocked readers (C03: the reader observes the end of the stream): a Peek / Read that waits
+	// for more than has arrived must be woken by whatever ends the stream
+	{"blocked-peek-vs-resetat", false, []string{"peekbig", "resetat"}},
+	{"blocked-peek-vs-reset", false, []string{"peekbig", "reset"}},
+	{"blocked-peek-vs-fin", false, []string{"peekbig", "fin"}},
+	{"blocked-read-vs-resetat", false, []string{"readbig", "resetat"}},
+	{"blocked-read-vs-fin-vs-cancelread", false, []string{"readbig", "fin", "cancelread"}},
+	{"blocked-peek-vs-read-vs-reset", false, []string{"peekbig", "read600", "reset"}},
 }
 
 type c04e3Replay struct {
@@ -73,6 +81,10 @@ func c04e3Scenario(v c04e3Variant) func() *sched.Scenario {
 				f = func() { rs.Read(make([]byte, 600)) }
 			case "readall":
 				f = func() { io.ReadFull(rs, make([]byte, total)) }
+			case "peekbig": // more than has been received: waits for data or for the end of the stream
+				f = func() { rs.Peek(make([]byte, 1500)) }
+			case "readbig":
+				f = func() { io.ReadFull(rs, make([]byte, 1500)) }
 			case "cancelread":
 				f = func() { rs.CancelRead(7) }
 			case "reset":
@@ -112,6 +124,10 @@ func c04e3Scenario(v c04e3Variant) func() *sched.Scenario {
 			Threads:   threads,
 			AfterStep: func() *explore.Fail { return check(false) },
 			Final: func(blocked []string) *explore.Fail {
+				// every variant ends the stream (reset, FIN or local cancellation): nobody may stay blocked
+				for _, b := range blocked {
+					return explore.Failf("e3:reader-not-woken", "%s: %s is still blocked after the stream has ended (all other calls have returned)", v.Name, b)
+				}
 				for _, err := range errs {
 					return explore.Failf("e3:frame-rejected", "%s: a frame within the limits was rejected: %v", v.Name, err)
 				}
@@ -126,6 +142,10 @@ func c04e3Scenario(v c04e3Variant) func() *sched.Scenario {
 }
 
 func TestVerifC04E3(t *testing.T) {
+	explore.Main("C04", []explore.Part{c04e3Part(t)}, func(msg string) { t.Fatal(msg) })
+}
+
+func c04e3Part(t *testing.T) explore.Part {
 	vsync.Hook = sched.Point
 	vsync.UnlockHook = sched.Point
 	part := explore.Part{
@@ -161,7 +181,7 @@ func TestVerifC04E3(t *testing.T) {
 			rep.OutcomesN = int64(len(rep.Outcomes))
 			rep.States = rep.OutcomesN
 			rep.Traces = rep.Transitions
-			rep.Rule = fmt.Sprintf("%d thread mixes on one real ReceiveStream with real stream and connection flow controllers (Read, CancelRead, RESET_STREAM, RESET_STREAM_AT, FIN, window-update collection; 1000 bytes received beforehand, with or without FIN) with every mutex Lock and Unlock of receive_stream.go and internal/flowcontrol as a scheduler point (files import-rewritten to vsync from the working tree): every schedule with at most %d preemptions", len(c04e3Variants), bound)
+			rep.Rule = fmt.Sprintf("%d thread mixes on one real ReceiveStream with real stream and connection flow controllers (Read, Peek and Read that wait for more than has arrived, CancelRead, RESET_STREAM, RESET_STREAM_AT, FIN, window-update collection; 1000 bytes received beforehand, with or without FIN) with every mutex Lock and Unlock of receive_stream.go and internal/flowcontrol as a scheduler point (files import-rewritten to vsync from the working tree): every schedule with at most %d preemptions", len(c04e3Variants), bound)
 			rep.Bound = fmt.Sprintf("preemption bound %d completed", bound)
 			return rep
 		},
@@ -177,5 +197,5 @@ func TestVerifC04E3(t *testing.T) {
 			return &explore.Violation{Key: f.Key, What: f.What, Human: trace}
 		},
 	}
-	explore.Main("C04", []explore.Part{part}, func(msg string) { t.Fatal(msg) })
+	return part
 }
